@@ -38,13 +38,33 @@ func init() {
 		Run: c07r5})
 }
 
-func walletMethods(c *Ctx) []*ir.Func { return c.P.MethodsOf("wallet", "SingleAddressWallet") }
+// walletViews: package wallet with helpers, lock brackets and local closures expanded; the methods that store
+// into the reservation map stay calls (the rules treat "reserve" as one step).
+func walletViews(c *Ctx) *ir.ViewSet {
+	rs := map[*types.Func]bool{}
+	for _, r := range reservers(c) {
+		rs[r] = true
+	}
+	return c.P.Views("wallet", ir.ExpandOpt{Key: "wallet-roles", Stop: func(fn *types.Func) bool { return rs[fn] }})
+}
+
+// walletMethods: the wallet's methods as expanded views; helpers absorbed by their callers are not listed.
+func walletMethods(c *Ctx) []*ir.Func {
+	vs := walletViews(c)
+	var out []*ir.Func
+	for _, m := range c.P.MethodsOf("wallet", "SingleAddressWallet") {
+		if !vs.Absorbed[m] {
+			out = append(out, vs.Of(m))
+		}
+	}
+	return out
+}
 
 func c07r1(c *Ctx) {
 	mu := walletMuField(c.P)
 	locked := walletLockedField(c.P)
 	methods := walletMethods(c)
-	ls := NewLockset(c.P, mu, methods)
+	ls := NewLocksetV(c.P, mu, methods, walletViews(c).Of)
 	for _, m := range methods {
 		for _, f := range append([]*ir.Func{m}, m.Lits...) {
 			g := f.Graph()
@@ -70,7 +90,7 @@ func c07r1(c *Ctx) {
 func reservers(c *Ctx) []*types.Func {
 	locked := walletLockedField(c.P)
 	var out []*types.Func
-	for _, m := range walletMethods(c) {
+	for _, m := range c.P.MethodsOf("wallet", "SingleAddressWallet") {
 		for _, n := range m.Graph().Nodes {
 			if n.AST == nil {
 				continue
@@ -114,9 +134,11 @@ func c07r2(c *Ctx) {
 				st = append(st, cfgx.StartAfter(e, 0))
 			}
 			reach := g.Reach(st, nil)
+			kinds := f.ReturnKindsFrom(st) // per path: a result copied into a named result keeps its meaning
 			bad := false
 			for _, r := range g.Returns() {
-				if v, ok := reach[r]; ok && errorish(f.ClassifyReturn(r)) {
+				k := kinds[r]
+				if v, ok := reach[r]; ok && (k&(1<<uint(ir.RetError)) != 0 || k&(1<<uint(ir.RetMaybe)) != 0) {
 					ob.Bad(c.Witness(v), "return at %s can carry an error after outputs were reserved at %s: a failed request keeps its reservation", c.P.Pos(r.Pos()), c.P.Pos(call.Pos()))
 					bad = true
 					break
@@ -132,7 +154,7 @@ func c07r2(c *Ctx) {
 func c07r3(c *Ctx) {
 	poolV1 := c.P.Method("wallet", "ChainManager", "PoolTransactions")
 	poolV2 := c.P.Method("wallet", "ChainManager", "V2PoolTransactions")
-	for _, f := range c.P.PkgFuncs("wallet") {
+	for _, f := range walletViews(c).Roots {
 		all := append([]*ir.Func{f}, f.Lits...)
 		var v1Loops, v2Loops []*ast.RangeStmt
 		var owner = map[*ast.RangeStmt]*ir.Func{}
@@ -218,7 +240,8 @@ func c07r3(c *Ctx) {
 type takeLoop struct {
 	stmt  ast.Stmt   // *ast.RangeStmt or *ast.ForStmt
 	head  *cfgx.Node // loop head node in the graph
-	slice types.Object
+	slice types.Object // root of the alias chain of the list taken from
+	own   types.Object // the variable a range loop ranges over (nil for other loops)
 }
 
 func c07r4(c *Ctx) {
@@ -300,7 +323,10 @@ func c07r4(c *Ctx) {
 				return
 			}
 			// does the body append something derived from an element variable?
-			var taken types.Object
+			var taken, own types.Object
+			if rs, ok := stmt.(*ast.RangeStmt); ok {
+				own = f.ObjOf(rs.X)
+			}
 			for _, call := range f.CallsIn(body, false) {
 				id, ok := call.Expr.Fun.(*ast.Ident)
 				if !ok {
@@ -334,7 +360,7 @@ func c07r4(c *Ctx) {
 				}
 			}
 			if head != nil {
-				loops = append(loops, takeLoop{stmt: stmt, head: head, slice: taken})
+				loops = append(loops, takeLoop{stmt: stmt, head: head, slice: taken, own: own})
 			}
 		})
 		if len(loops) == 0 {
@@ -378,7 +404,8 @@ func c07r4(c *Ctx) {
 					}
 					for _, w := range f.WritesIn(n.AST, false) {
 						lo := f.ObjOf(w.LHS)
-						if lo == nil || lo != l1.slice {
+						// the list itself, or the copy of it that the second loop ranges over
+						if lo == nil || (lo != l1.slice && !(lo == l2.own && root(lo) == l1.slice)) {
 							continue
 						}
 						if _, isID := ast.Unparen(w.LHS).(*ast.Ident); !isID {
@@ -395,7 +422,7 @@ func c07r4(c *Ctx) {
 								return true
 							}
 						}
-						if !f.MentionsObj(w.RHS, false, l1.slice) {
+						if !f.MentionsObj(w.RHS, false, l1.slice) && !f.MentionsObj(w.RHS, false, lo) {
 							return true // replaced by a value not derived from itself
 						}
 					}
@@ -497,7 +524,7 @@ func c07r5(c *Ctx) {
 	unspent := c.P.Method("wallet", "SingleAddressStore", "UnspentSiacoinElements")
 	maturity := c.P.Field("types", "SiacoinElement", "MaturityHeight")
 	methods := walletMethods(c)
-	ls := NewLockset(c.P, mu, methods)
+	ls := NewLocksetV(c.P, mu, methods, walletViews(c).Of)
 	// the reservation test: methods that read locked[...] and return bool
 	var isLockedFns []*types.Func
 	for _, m := range methods {
@@ -616,7 +643,7 @@ func c07r6(c *Ctx) {
 	mu := walletMuField(c.P)
 	locked := walletLockedField(c.P)
 	methods := walletMethods(c)
-	ls := NewLockset(c.P, mu, methods)
+	ls := NewLocksetV(c.P, mu, methods, walletViews(c).Of)
 	rs := reservers(c)
 	// selectors: unexported methods that (transitively, 2 hops) read the reservation map and return candidate elements
 	reads := map[*types.Func]bool{}
@@ -788,7 +815,7 @@ func c07r8(c *Ctx) {
 	poolV1 := c.P.Method("wallet", "ChainManager", "PoolTransactions")
 	poolV2 := c.P.Method("wallet", "ChainManager", "V2PoolTransactions")
 	methods := walletMethods(c)
-	ls := NewLockset(c.P, mu, methods)
+	ls := NewLocksetV(c.P, mu, methods, walletViews(c).Of)
 	n := 0
 	for _, f := range methods {
 		g := f.Graph()
